@@ -39,8 +39,9 @@ class LaunchCtx:
     self.ev = ev
     self.kv: KernelV = ev.kernel
     self.fi = ev.kernel.fi
-    self.keval: kir.KernelEval = db.kernel_eval(ev.kernel)
     self.binding: Dict[str, hostir.HV] = {p.name: v for p, v in (ev.bindings or [])}
+    consts = {p.name: v.v for p, v in (ev.bindings or []) if p.kind == "scalar" and isinstance(v, Const) and isinstance(v.v, (bool, int, float))}
+    self.keval: kir.KernelEval = db.kernel_eval(ev.kernel, consts)
     self.formals: Dict[str, kir.ParamInfo] = {p.name: p for p, _ in (ev.bindings or [])}
 
   def field(self, root: str) -> Optional[FieldSpec]:
@@ -90,12 +91,13 @@ class DB:
     self._traces: Dict[tuple, hostir.HostInterp] = {}
 
   # ------------------------------------------------------------------ kernels
-  def kernel_eval(self, kv: KernelV) -> kir.KernelEval:
-    key = (kv.fi.key, tuple(sorted((k, repr(v)) for k, v in kv.static_vals.items())), tuple(sorted(kv.closure_text.items())))
+  def kernel_eval(self, kv: KernelV, consts=None) -> kir.KernelEval:
+    consts = consts or {}
+    key = (kv.fi.key, tuple(sorted((k, repr(v)) for k, v in kv.static_vals.items())), tuple(sorted(kv.closure_text.items())), tuple(sorted(consts.items())))
     ev = self._kevals.get(key)
     if ev is None:
       bind = {k: T("cv", f"{k}={v}") for k, v in kv.closure_text.items() if k not in kv.static_vals}
-      ev = kir.evaluate(self.sm, kv.fi, kv.static_vals, bind)
+      ev = kir.evaluate(self.sm, kv.fi, kv.static_vals, bind, consts)
       self._kevals[key] = ev
     return ev
 
